@@ -351,12 +351,16 @@ func c08Recipients(p *Program, r *Report) {
 	for _, fn := range []*ssa.Function{s.OnSupervise, s.Apply, s.Broadcast} {
 		kill := p.ctxMethod(p.lifecycle(), "Kill")
 		g := p.ig(fn)
+		if fn == s.Apply {
+			g = p.applyGraph(s, p.lifecycle())
+		}
+		restore := p.withGraph(g)
 		type send struct {
 			in  ssa.Instruction
 			rec ssa.Value
 		}
 		var sends []send
-		for _, ts := range p.tellSites(fn) {
+		for _, ts := range p.tellSitesG(g) {
 			sends = append(sends, send{ts.In, ts.Recipient})
 		}
 		for _, in := range g.Nodes {
@@ -377,6 +381,7 @@ func c08Recipients(p *Program, r *Report) {
 			}
 			r.Check(good, "recipient of send in "+fnName(fn), sd.in.Pos(), "recipient is an element of the decision's targets (or a chained context's targets) or the supervisor's parent: "+strings.Join(o, " | "))
 		}
+		restore()
 	}
 	if n == 0 {
 		r.Unresolved("no send in the supervision code")
@@ -411,10 +416,11 @@ func c08Dispatch(p *Program, r *Report) {
 	if s == nil {
 		return
 	}
-	g := p.ig(s.Apply)
+	g := p.applyGraph(s, lc)
+	defer p.withGraph(g)()
 	kill := p.ctxMethod(lc, "Kill")
 	restartTells, escalTells := map[int]bool{}, map[int]bool{}
-	for _, ts := range p.tellSites(s.Apply) {
+	for _, ts := range p.tellSitesG(g) {
 		switch {
 		case hasField(strip(ts.Message).Type(), "Poison") && !isAllocOf(ts.Message, "OnKill"):
 			restartTells[g.Idx[ts.In]] = true
@@ -464,7 +470,7 @@ func c08Dispatch(p *Program, r *Report) {
 		if !g.DominatedByNodes(n, pause) {
 			ok = false
 		}
-		for _, ts := range p.tellSites(s.Apply) {
+		for _, ts := range p.tellSitesG(g) {
 			if g.Idx[ts.In] != n {
 				continue
 			}
@@ -484,7 +490,7 @@ func c08Dispatch(p *Program, r *Report) {
 					if fa, isFA := ref.(*ssa.FieldAddr); isFA {
 						if f, _ := fieldAddr(fa); f == s.SubLink {
 							for _, u := range *fa.Referrers() {
-								if st, isSt := u.(*ssa.Store); isSt && strip(st.Val) == ssa.Value(s.Apply.Params[0]) {
+								if st, isSt := u.(*ssa.Store); isSt && g.res(st.Val) == ssa.Value(s.Apply.Params[0]) {
 									linked = true
 								}
 							}
@@ -515,13 +521,14 @@ func c08Exhaustive(p *Program, r *Report) {
 	if s == nil {
 		return
 	}
-	g := p.ig(s.Apply)
+	g := p.applyGraph(s, lc)
+	defer p.withGraph(g)()
 	kill := p.ctxMethod(lc, "Kill")
 	eff := nodesWhere(g, func(in ssa.Instruction) bool {
 		c := callOf(in)
 		return c != nil && (c.StaticCallee() == kill || c.StaticCallee() == s.Broadcast)
 	})
-	for _, ts := range p.tellSites(s.Apply) {
+	for _, ts := range p.tellSitesG(g) {
 		eff[g.Idx[ts.In]] = true
 	}
 	// loops over an empty target list legitimately skip their tell; the loop test counts as entering the branch
@@ -792,7 +799,8 @@ func c09Broadcast(p *Program, r *Report) {
 	}
 	r.Check(okOuter, "broadcast walks the whole escalation chain", s.Broadcast.Pos(), "outer loop starts at the receiver, follows the sub-context link and exits only when the link is nil")
 	// (b) in apply-decision
-	g := p.ig(s.Apply)
+	g := p.applyGraph(s, lc)
+	defer p.withGraph(g)()
 	bcast := nodesWhere(g, func(in ssa.Instruction) bool {
 		c := callOf(in)
 		if c == nil || c.StaticCallee() != s.Broadcast {
@@ -806,11 +814,11 @@ func c09Broadcast(p *Program, r *Report) {
 	})
 	kill := p.ctxMethod(lc, "Kill")
 	gr := map[edge]bool{}
-	for _, ifi := range ifsOf(s.Apply) {
+	for _, ifi := range g.ifs() {
 		for _, outcome := range []bool{true, false} {
 			f, okf := condFact(ifi.Cond, outcome)
 			if okf && f.Bool && f.Op == token.NEQ {
-				if c, isC := f.X.(*ssa.Call); isC && c.Call.StaticCallee() != nil && c.Call.StaticCallee().Name() == "IsGraceful" {
+				if c, isC := g.res(f.X).(*ssa.Call); isC && c.Call.StaticCallee() != nil && c.Call.StaticCallee().Name() == "IsGraceful" {
 					gr[g.branchEdge(ifi, outcome)] = true
 				}
 			}
@@ -833,7 +841,7 @@ func c09Broadcast(p *Program, r *Report) {
 		pre  func(in ssa.Instruction) bool
 	}{
 		{"graceful restart", rT, func(in ssa.Instruction) bool {
-			for _, ts := range p.tellSites(s.Apply) {
+			for _, ts := range p.tellSitesG(g) {
 				if ts.In == in && hasField(strip(ts.Message).Type(), "Poison") {
 					return true
 				}
@@ -1471,4 +1479,26 @@ func c09IgnoredDirectives(p *Program, r *Report) {
 		}
 	}
 	r.Check(okC, "ignored Kill: a stopping actor forwards it to its children", lc.OnKill.Pos(), "on the CAS-lost edge of the kill handler (actor already stopping) every path forwards the kill to / resumes the children: an immediate Stop decided for a supervisor that is already stopping gracefully must still reach a child paused behind its poison kill")
+}
+
+
+// applyGraph: the apply-decision function with its single-call helpers inlined (a directive's body extracted into a method
+// stays part of the branch that calls it); role functions stay calls.
+func (p *Program) applyGraph(s *supRoles, lc *lifecycle) *IG {
+	skip := lc.roleFuncs(p)
+	for _, f := range []*ssa.Function{s.Broadcast, s.NewSupCtx} {
+		if f != nil {
+			skip[f] = true
+		}
+	}
+	return p.igxSkip(s.Apply, skip)
+}
+
+// tellSitesG: the tell sites of every function of the graph.
+func (p *Program) tellSitesG(g *IG) []tellSite {
+	var out []tellSite
+	for _, f := range g.Fns {
+		out = append(out, p.tellSites(f)...)
+	}
+	return out
 }
